@@ -1,12 +1,22 @@
 #!/bin/sh
 # usage: run_seed.sh <seed-dir-name under /verif/seeded> <PROP> [more PROPs]  -- applies the seeded patch to /repo, runs the
-# quick checks, undoes the patch.  Prints one line per check: exit code and whether a VIOLATION line was printed.
+# quick checks, undoes the patch.  Prints one line per check and records the outcome in seeded/detection.json.
 S=/verif/seeded/$1; shift
 cd /repo && git diff --quiet || { echo "repo dirty"; exit 9; }
 git apply $S/patch.diff || { echo "$S: patch does not apply to current /repo"; exit 8; }
 for P in "$@"; do
-  cd /verif && ./check $P --tier ${TIER:-quick} > /tmp/seedrun-$(basename $S)-$P.log 2>&1; RC=$?
-  V=$(grep -c "^VIOLATION property=$P" /tmp/seedrun-$(basename $S)-$P.log)
-  echo "$(basename $S) check=$P exit=$RC violation_lines=$V :: $(grep -m1 -A1 '^VIOLATION' /tmp/seedrun-$(basename $S)-$P.log | tail -1 | cut -c1-220)"
+  L=/tmp/seedrun-$(basename $S)-$P.log
+  cd /verif && ./check $P --tier ${TIER:-quick} > $L 2>&1; RC=$?
+  V=$(grep -c "^VIOLATION property=$P" $L)
+  FIRST=$(grep -m1 -A1 '^VIOLATION' $L | tail -1 | cut -c1-220)
+  echo "$(basename $S) check=$P exit=$RC violation_lines=$V :: $FIRST"
+  python3 - "$(basename $S)" "$P" "$RC" "$V" "$FIRST" "${TIER:-quick}" <<'PY'
+import json, sys, os
+p = "/verif/seeded/detection.json"
+d = json.load(open(p)) if os.path.exists(p) else {}
+seed, prop, rc, v, first, tier = sys.argv[1:7]
+d.setdefault(seed, {})[prop] = dict(tier=tier, exit=int(rc), violation_lines=int(v), caught=(int(rc) == 1 and int(v) > 0), first=first.strip())
+json.dump(d, open(p, "w"), indent=1, sort_keys=True)
+PY
 done
 cd /repo && git checkout -q -- . && git status --short | head -3
